@@ -9,7 +9,7 @@
 (* that slot; other slots and the first-page flag are left alone; all of   *)
 (* it survives Save/ToBytes, Reopen and document-template rendering.       *)
 (*                                                                         *)
-(* Abstract state   st = [pkg, def, clk]                                   *)
+(* Abstract state   st = [pkg, def, clk, names]                            *)
 (*   pkg   the package as the independent reader sees it                   *)
 (*         refs   Seq([hf, kind, rid])     references of the final sectPr  *)
 (*         rels   Seq([id, ty, tgt])       relationships of the main part  *)
@@ -22,6 +22,8 @@
 (*         definition), NoDef where nothing was defined                    *)
 (*   clk   number of operations applied so far; the text of the call made  *)
 (*         at step n carries serial n, so "most recent" is observable      *)
+(*   names "lib" | "foreign": whether the document went through a package  *)
+(*         with Word-style part names (abstract state class of witnesses)  *)
 (* An operation is a record [op |-> name, ...args]; the implementation's   *)
 (* free choices (relationship id, part name) are a record ch.              *)
 (***************************************************************************)
@@ -127,7 +129,10 @@ ContentDiff(c, d) ==
 \* ---- the package ----------------------------------------------------------
 StylesRel == [id |-> "rId1", ty |-> "other", tgt |-> "word/styles.xml"]
 InitPkg == [refs |-> <<>>, rels |-> <<StylesRel>>, parts |-> <<>>, titlePg |-> FALSE, evenOdd |-> FALSE]
-InitSt == [pkg |-> InitPkg, def |-> [s \in Slots |-> NoDef], clk |-> 0]
+\* names = "lib": every header/footer part was named by the library itself; "foreign": the document went through
+\* a package whose parts are numbered the way Word does (header1.xml, header2.xml ... in order of kind first, even,
+\* default) - an equivalent package, since part names carry no meaning
+InitSt == [pkg |-> InitPkg, def |-> [s \in Slots |-> NoDef], clk |-> 0, names |-> "lib"]
 
 TyOf(hf)   == IF hf = "h" THEN "header" ELSE "footer"
 RootOf(hf) == IF hf = "h" THEN "hdr" ELSE "ftr"
@@ -223,16 +228,19 @@ ApplyD(st, op, ch, design) ==
   LET n == st.clk + 1
       P == st.pkg
   IN IF op.op \in HfOps THEN
-          [pkg |-> ApplyHf(P, op, ch, n, design), def |-> [st.def EXCEPT ![SlotOf(op)] = Def(op, n)], clk |-> n]
+          [st EXCEPT !.pkg = ApplyHf(P, op, ch, n, design), !.def = [st.def EXCEPT ![SlotOf(op)] = Def(op, n)], !.clk = n]
      ELSE IF op.op = "SetDifferentFirstPage" THEN
           [st EXCEPT !.pkg.titlePg = op.b, !.clk = n]
      ELSE IF op.op \in {"AddImage", "AddListItem", "AddFootnote"} /\ ch.rid # "" THEN
           [st EXCEPT !.pkg.rels = Append(P.rels, [id |-> ch.rid, ty |-> "other", tgt |-> ch.part]), !.clk = n]
      ELSE IF op.op = "Render" THEN
-          [pkg |-> [P EXCEPT !.parts = [j \in 1..Len(P.parts) |->
+          [st EXCEPT !.pkg = [P EXCEPT !.parts = [j \in 1..Len(P.parts) |->
                                           [P.parts[j] EXCEPT !.c.items = RenderItems(@, Subst(op))]]],
-           def |-> [s \in Slots |-> [st.def[s] EXCEPT !.items = RenderItems(@, Subst(op))]],
-           clk |-> n]
+                     !.def = [s \in Slots |-> [st.def[s] EXCEPT !.items = RenderItems(@, Subst(op))]],
+                     !.clk = n]
+     \* opening keeps every definition whatever the parts are called
+     ELSE IF op.op = "Reopen" /\ op.via = "word" THEN
+          [st EXCEPT !.names = "foreign", !.clk = n]
      \* page settings, body content without relationships, Save / ToBytes, Reopen: nothing changes
      ELSE [st EXCEPT !.clk = n]
 
